@@ -15,6 +15,7 @@ import (
 	"encoding/json"
 	"errors"
 	"fmt"
+	"math"
 	"math/rand/v2"
 	"os"
 	"os/exec"
@@ -202,6 +203,108 @@ type c23Env struct {
 	abort       chan struct{}
 	abortOnce   sync.Once
 	hung        atomic.Bool
+
+	rmu      sync.Mutex
+	retained []*c23Retained
+}
+
+// A result returned by Get belongs to the caller: it must not change after the call returned,
+// and what the caller does to it must not show up in anybody else's result.
+const c23Poison = int64(-0x7717_5EED)
+
+type c23SlotSnap struct {
+	n         int
+	h         uint64
+	ver, load int64
+	served    byte // 'h' from cache, 'j' joined a running load, 'f' loaded after the call
+}
+
+type c23Retained struct {
+	g    *c23Get
+	res  cache2Data
+	snap []c23SlotSnap
+}
+
+func c23SnapOf(rows []tsSelectRow) (sn c23SlotSnap) {
+	sn.n = len(rows)
+	h := uint64(14695981039346656037)
+	mix := func(x uint64) { h = (h ^ x) * 1099511628211 }
+	for j := range rows {
+		r := &rows[j]
+		mix(uint64(r.time))
+		for k := 0; k < 6; k++ {
+			mix(uint64(r.tag[k]))
+		}
+		mix(math.Float64bits(r.count))
+	}
+	sn.h = h
+	if len(rows) > 0 {
+		sn.ver, sn.load = rows[0].tag[2], rows[0].tag[3]
+	}
+	return sn
+}
+
+func (e *c23Env) retain(g *c23Get, res cache2Data) *c23Retained {
+	rt := &c23Retained{g: g, res: res, snap: make([]c23SlotSnap, len(res))}
+	for i := range res {
+		sn := c23SnapOf(res[i])
+		sn.served = '-'
+		if sn.n > 0 {
+			if L := e.loadByID(sn.load); L != nil {
+				if rc := L.retClk.Load(); rc != 0 && rc < g.called {
+					sn.served = 'h'
+				} else if L.startClk < g.called {
+					sn.served = 'j'
+				} else {
+					sn.served = 'f'
+				}
+			}
+		}
+		rt.snap[i] = sn
+	}
+	e.st.Count("results.retained", 1)
+	return rt
+}
+
+// verify re-reads a retained result and compares it with what it was when Get returned
+func (e *c23Env) verify(rt *c23Retained, when string) {
+	e.st.Count("results.reverified."+when, 1)
+	for i := range rt.res {
+		now := c23SnapOf(rt.res[i])
+		was := rt.snap[i]
+		if now.n == was.n && now.h == was.h {
+			continue
+		}
+		how := map[byte]string{'h': "slot-served-from-cache", 'j': "slot-joined-running-load", 'f': "slot-loaded-by-this-get", '-': "empty-slot"}[was.served]
+		e.bad("C23/result/mutated-after-return/"+how, "a result that Get had already returned changed later (the rows are shared with the cache or with another request)", rt.g,
+			map[string]any{"when": when, "slot_index": i, "slot": rt.g.win.slots[rt.g.fromIdx+i], "rows_then": was.n, "version_then": was.ver, "load_then": was.load,
+				"rows_now": now.n, "version_now": now.ver, "load_now": now.load, "get_called_clk": rt.g.called, "clk_now": e.clk.Load()})
+		return
+	}
+}
+
+// scribble: the owner of a result overwrites it (as a caller may: sorting, merging in place).
+// Done only when every load that produced rows of it has finished inside the cache, because
+// until then the loader goroutine legitimately still reads the loading request's buffer.
+func (e *c23Env) scribble(rt *c23Retained) {
+	for _, sn := range rt.snap {
+		if sn.n == 0 {
+			continue
+		}
+		if L := e.loadByID(sn.load); L == nil || L.finClk.Load() == 0 {
+			e.st.Count("results.scribble-skipped-load-not-finished", 1)
+			return
+		}
+	}
+	for i := range rt.res {
+		for j := range rt.res[i] {
+			r := &rt.res[i][j]
+			r.time = -1
+			r.tag[0], r.tag[2], r.tag[3], r.tag[5] = c23Poison, -1, -1, c23Poison
+			r.count = -1
+		}
+	}
+	e.st.Count("results.scribbled-by-owner", 1)
 }
 
 type c23Get struct {
@@ -667,6 +770,9 @@ func (e *c23Env) judge(g *c23Get, res cache2Data, returned int64) (v c23Verdict)
 		for j := range rows {
 			row := &rows[j]
 			switch {
+			case row.tag[5] == c23Poison || row.tag[0] == c23Poison:
+				okRows = false
+				e.bad("C23/result/shared-with-another-caller", "Get returned rows that another request had received earlier and overwritten as their owner: results of different requests (or the cache's own copy) share memory", g, map[string]any{"slot": t, "slot_index": i})
 			case row.tag[0] != int64(g.key):
 				okRows = false
 				e.bad("C23/placement/row-of-other-query", "slot holds a row of another query", g, map[string]any{"slot": t, "slot_index": i, "row_key": row.tag[0], "row_time": row.time})
@@ -853,11 +959,26 @@ func (e *c23Env) worker(widx int, rnd *rand.Rand) {
 		}
 		return q
 	}
+	var ring []*c23Retained
+	defer func() {
+		e.rmu.Lock()
+		e.retained = append(e.retained, ring...)
+		e.rmu.Unlock()
+	}()
 	for i := 0; i < cfg.gets; i++ {
 		select {
 		case <-e.abort:
 			return
 		default:
+		}
+		// results kept from earlier Gets: look at the oldest again; when the ring is full the
+		// oldest is checked a last time, then overwritten by its owner and dropped
+		if len(ring) > 0 {
+			e.verify(ring[0], "mid-round")
+			if len(ring) >= 4 {
+				e.scribble(ring[0])
+				ring = ring[1:]
+			}
 		}
 		g := &c23Get{id: e.getSeq.Add(1)}
 		g.key = int32(1 + rnd.IntN(cfg.keys))
@@ -960,6 +1081,9 @@ func (e *c23Env) worker(widx int, rnd *rand.Rand) {
 		}
 		e.st.Count("gets.success", 1)
 		v := e.judge(g, o.res, o.ret)
+		if v.hits > 0 || rnd.IntN(3) == 0 {
+			ring = append(ring, e.retain(g, o.res))
+		}
 		e.st.Count("slots.checked", int64(v.slots))
 		e.st.Count("fresh.slots-under-prior-invalidation", int64(v.constrained))
 		e.st.Count("slots.served-from-cache", int64(v.hits))
@@ -1108,6 +1232,10 @@ func c23Round(r *verifkit.Run, st *c23Stats, cfg c23Cfg) {
 		r.Inconclusive(fmt.Sprintf("round %s: %d load goroutines of the cache did not finish within 60 s after the last Get returned; memory accounting not judged", cfg.name, n))
 		return
 	}
+	// retained results once more: no Get and no load is running now
+	for _, rt := range e.retained {
+		e.verify(rt, "at-quiescence")
+	}
 	c := e.cache
 	snapshot := func() (cache2RuntimeInfo, int64, int, int64) {
 		c.mu.Lock()
@@ -1175,6 +1303,9 @@ func c23Round(r *verifkit.Run, st *c23Stats, cfg c23Cfg) {
 	}
 	if n := c.bucketCount(); n != 0 {
 		r.Violation("C23/memory/buckets-left-after-reset", "buckets remain after reset()", memWitness(info, inflight, reqs))
+	}
+	for _, rt := range e.retained {
+		e.verify(rt, "after-cache-emptied")
 	}
 	st.Count("memory.checked-after-shutdown", 1)
 	// statistics gauge, deliberately not judged (DESIGN §6 C23)
@@ -1245,7 +1376,7 @@ func c23Rounds(r *verifkit.Run) []c23Cfg {
 	return cfgs
 }
 
-const c23Rule = "rounds of 32-128 goroutines issuing Get (3-4 steps per round out of 1s..1 month, chunk-aligned and unaligned ranges of 1-90 slots from a small window so that requests overlap, play 0/1/5, forceLoad, cache-disabled users, cancelled contexts) against the real cache2 over a versioned stub storage, concurrently with invalidate (after bumping versions), reset, setLimits (tiny/moderate/no limit, maxAge) and failing / slow / in-flight-accounted loads; every round runs in its own child process so that a crash of the cache is observed and classified. One case = one successful Get, judged slot by slot (placement) and, for play=0, against every invalidation of the slot that returned before the call (freshness). Non-trivial = a non-play Get with at least one slot under a prior invalidation or served by joining a load that was already running; distinct = (round, step, range, key, flags, served-how buckets, overlapping event kinds)."
+const c23Rule = "rounds of 32-128 goroutines issuing Get (3-4 steps per round out of 1s..1 month, chunk-aligned and unaligned ranges of 1-90 slots from a small window so that requests overlap, play 0/1/5, forceLoad, cache-disabled users, cancelled contexts) against the real cache2 over a versioned stub storage, concurrently with invalidate (after bumping versions), reset, setLimits (tiny/moderate/no limit, maxAge) and failing / slow / in-flight-accounted loads; every round runs in its own child process so that a crash of the cache is observed and classified. One case = one successful Get, judged slot by slot (placement) and, for play=0, against every invalidation of the slot that returned before the call (freshness); about half of the results (all that contain cache hits) are kept with a per-slot digest, re-read before later Gets of the same goroutine, at quiescence and after the cache was emptied (a returned result must not change), and are finally overwritten by their owner (no later Get may see that). Non-trivial = a non-play Get with at least one slot under a prior invalidation or served by joining a load that was already running; distinct = (round, step, range, key, flags, served-how buckets, overlapping event kinds)."
 
 func TestVerifC23(t *testing.T) {
 	r := verifkit.Start(t, "C23", "cache2")
